@@ -11,7 +11,7 @@ import (
 	"verif/sim/ref"
 )
 
-var patchKeys = []string{"a", "b", "c", "k1", "x/y", "t~0", "arr", "n.m", "ü"}
+var patchKeys = []string{"a", "b", "c", "k1", "x/y", "t~0", "arr", "n.m", "ü", "p~1q", "~01", "~10", "a~0~1b/", "/", "~"}
 
 func mutateJSON(g *kernel.Rng, v interface{}, depth int) interface{} {
 	switch x := v.(type) {
